@@ -1,5 +1,6 @@
 mod c02s;
 mod c03s;
+mod c16s;
 mod c05;
 mod c06;
 mod c07;
